@@ -119,6 +119,47 @@ def generate(rng, tier, index):
                 'specs': [c05.gen_spec(r, r.choice(
                     gen.OTYPES + ['SplitKey', 'SplitKey']))
                     for _ in range(r.choice([1, 2, 3]))]})
+    if r.random() < 0.2:
+        # every error class of the cryptographic operations on one usable
+        # key: authenticated decryption that does not verify, bad IV and
+        # data sizes, unsupported parameters
+        ver = r.choice([(1, 4), (2, 0), (1, 2)])
+        a = r.randrange(2)
+        steps.append({'actor': a, 'ver': [1, 2], 'items': [
+            {'op': 'Register', 'label': 'aead', 'otype': 'SymmetricKey',
+             'attrs': [A('Cryptographic Usage Mask', 0x0C)],
+             'obj': {'kft': 1, 'value': ctx.rbytes(16), 'alg': 3,
+                     'len': 128}}, {'op': 'Activate'}], 'cont': 1})
+        for _ in range(r.choice([2, 3, 4])):
+            k = r.choice(['gcm_bad_tag', 'gcm_bad_tag', 'cbc_bad_iv',
+                          'cbc_ragged', 'gcm_short_tag', 'unsupported'])
+            op = {'op': 'Decrypt', 'uid': '@aead',
+                  'data': ctx.rbytes(r.choice([16, 32])),
+                  'iv': ctx.rbytes(12)}
+            if k == 'gcm_bad_tag':
+                op['cp'] = {'alg': 3, 'mode': 9, 'tag_len': 16}
+                if ver >= (1, 4):
+                    op['tag'] = ctx.rbytes(16)
+                    if r.random() < 0.5:
+                        op['aad'] = ctx.rbytes(8)
+            elif k == 'gcm_short_tag':
+                op['cp'] = {'alg': 3, 'mode': 9, 'tag_len': 4}
+                if ver >= (1, 4):
+                    op['tag'] = ctx.rbytes(4)
+            elif k == 'cbc_bad_iv':
+                op['cp'] = {'alg': 3, 'mode': 1, 'padding': 3}
+                op['iv'] = ctx.rbytes(r.choice([0, 7, 17]))
+            elif k == 'cbc_ragged':
+                op['cp'] = {'alg': 3, 'mode': 1, 'padding': 1}
+                op['iv'] = ctx.rbytes(16)
+                op['data'] = ctx.rbytes(r.choice([5, 17]))
+            else:
+                op['cp'] = {'alg': r.choice([3, 2, 0x16]),
+                            'mode': r.choice([0x0B, 0x0C, 7, 2])}
+            if r.random() < 0.3:
+                op['op'] = 'Encrypt'
+                op.pop('tag', None)
+            steps.append({'actor': a, 'ver': list(ver), 'items': [op]})
     return {'actors': actors, 'plugin_fails': plugin_fails,
             'seed': r.randrange(1 << 30), 'steps': steps}
 
